@@ -11,7 +11,9 @@ EXPLANATION = (
     "Decides isolation and routing: (a) FRESH -- SplitIntoBins builds its cells with init_bins(edges, seq, deepcopy=True) "
     "and init_bins deep-copies the value per cell wherever the flag is set (the copy call is inside the innermost "
     "comprehension/loop); MapBins.run applies copy.deepcopy(self._seq).run([cell]) per cell, the copy being inside the "
-    "per-cell callable, not hoisted; (b) GUARD -- SplitIntoBins.fill reaches a cell only through indices from "
+    "per-cell callable, not hoisted; init_bins never replicates the value with `[value] * n` on a deepcopy path (a later deepcopy of "
+    "the list keeps the n references identical); whatever IterateBins.run puts into the context it yields for a cell "
+    "(update_nested / update_recursively / update arguments) is a deepcopy or built inside the cell loop; (b) GUARD -- SplitIntoBins.fill reaches a cell only through indices from "
     "get_bin_on_value(self._arg_func(data), self.edges), each dominated by `ind < 0 -> return` and enclosed by "
     "`except IndexError -> return`; (c) ONCE/ORDER -- exactly one cell is filled on the in-range path, none otherwise; "
     "the context kept for compute() is a deep copy taken before the cell's sequence sees the value and is stored only "
